@@ -309,7 +309,9 @@ def ref_decode(t: T, d, fam: Family, ns):
             raise RefError("non-mapping for TypedDict")
         out = {}
         for f in spec.fields:
-            if f.name in d:
+            if f.ty.kind == "tuplefix" and not f.ty.args and spec.total:
+                out[f.name] = ()      # constant position: the key is not read (see tuple positions above)
+            elif f.name in d:
                 out[f.name] = ref_decode(f.ty, d[f.name], fam, ns)
             elif spec.total:
                 raise RefError(f"missing key {f.name}")
